@@ -118,8 +118,21 @@ impl Bloom {
         r == 1
     }
 
+    /// The probe positions are an arithmetic progression `h + i * l` built from the two halves of
+    /// the hash. Hashes that are not well mixed (sequential integers, as `TransparentKeyBuilder`
+    /// produces for integer keys) make those progressions overlap and the false positive rate
+    /// climbs far above the target, so the halves are taken from a mixed copy of the hash.
+    #[inline]
+    fn mix(hash: u64) -> u64 {
+        let mut z = hash.wrapping_add(0x9e37_79b9_7f4a_7c15);
+        z = (z ^ (z >> 30)).wrapping_mul(0xbf58_476d_1ce4_e5b9);
+        z = (z ^ (z >> 27)).wrapping_mul(0x94d0_49bb_1331_11eb);
+        z ^ (z >> 31)
+    }
+
     /// `add` adds hash of a key to the bloom filter
     pub fn add(&mut self, hash: u64) {
+        let hash = Self::mix(hash);
         let h = hash >> self.shift;
         let l = (hash << self.shift) >> self.shift;
         (0..self.set_locs).for_each(|i| {
@@ -131,6 +144,7 @@ impl Bloom {
     /// `contains` checks if bit(s) for entry hash is/are set,
     /// returns true if the hash was added to the Bloom Filter.
     pub fn contains(&self, hash: u64) -> bool {
+        let hash = Self::mix(hash);
         let h = hash >> self.shift;
         let l = (hash << self.shift) >> self.shift;
         for i in 0..self.set_locs {
